@@ -15,7 +15,7 @@ CheckOK(e) ==
                             /\ Transitive(Ts[i]) /\ SatisfiesRelators(Ts[i], e.rels)
    \* pairwise inequivalent: the canonical forms (up to renumbering rows incl. the base row) are all different
    /\ Cardinality({CanonAct(Ts[i]) : i \in 1..Len(Ts)}) = Len(Ts)
-   /\ \A j \in 1..e.kcheck : Cardinality({i \in 1..Len(Ts) : NRows(Ts[i]) = j}) = NumClasses(e.ng, j, e.rels)
+   /\ \A j \in 1..e.kcheck : Cardinality({i \in 1..Len(Ts) : NRows(Ts[i]) = j}) = NumSubgroupClasses(e.ng, j, e.rels)
 Next == /\ l <= Len(Rec)
         /\ ("panic" \notin DOMAIN Rec[l] /\ CheckOK(Rec[l])) = TRUE
         /\ l' = l + 1
